@@ -203,7 +203,7 @@ def gethash_outpoint(self: Obj(COutPoint)) -> Bytes:
 
 
 # ---- copy constructors: immutable snapshots and mutable copies never share mutable state with the source ------
-@contract('bitcoin.core:COutPoint.from_outpoint', name='freeze_outpoint', prop=P)
+@contract('bitcoin.core:COutPoint.from_outpoint', name='freeze_outpoint', prop=[P, 'C02'])
 def freeze_outpoint(cls: Const(COutPoint), outpoint: Obj(CMutableOutPoint, heap=True)):
     """immutable snapshot of a mutable outpoint: a new COutPoint with the current field values"""
     requires(len(outpoint.hash) == 32 and 0 <= outpoint.n and outpoint.n <= 0xffffffff)
@@ -212,7 +212,7 @@ def freeze_outpoint(cls: Const(COutPoint), outpoint: Obj(CMutableOutPoint, heap=
     ensures(outpoint.hash == old(outpoint.hash) and outpoint.n == old(outpoint.n))
 
 
-@contract('bitcoin.core:CMutableOutPoint.from_outpoint', name='thaw_outpoint', prop=P)
+@contract('bitcoin.core:CMutableOutPoint.from_outpoint', name='thaw_outpoint', prop=[P, 'C02'])
 def thaw_outpoint(cls: Const(CMutableOutPoint), outpoint: Obj(OneOf(COutPoint, CMutableOutPoint), heap=True)):
     """mutable copy of any outpoint: always a new object"""
     requires(len(outpoint.hash) == 32 and 0 <= outpoint.n and outpoint.n <= 0xffffffff)
@@ -220,7 +220,7 @@ def thaw_outpoint(cls: Const(CMutableOutPoint), outpoint: Obj(OneOf(COutPoint, C
             and result.hash == outpoint.hash and result.n == outpoint.n)
 
 
-@contract('bitcoin.core:CTxIn.from_txin', name='freeze_txin', prop=P)
+@contract('bitcoin.core:CTxIn.from_txin', name='freeze_txin', prop=[P, 'C02'])
 def freeze_txin(cls: Const(CTxIn), txin: Obj(CMutableTxIn, heap=True, prevout=Obj(CMutableOutPoint, heap=True))):
     """immutable snapshot of a mutable input: new CTxIn whose outpoint is a new immutable COutPoint"""
     requires(len(txin.prevout.hash) == 32 and 0 <= txin.prevout.n and txin.prevout.n <= 0xffffffff
@@ -231,7 +231,7 @@ def freeze_txin(cls: Const(CTxIn), txin: Obj(CMutableTxIn, heap=True, prevout=Ob
             and result.scriptSig == txin.scriptSig and result.nSequence == txin.nSequence)
 
 
-@contract('bitcoin.core:CMutableTxIn.from_txin', name='thaw_txin', prop=P)
+@contract('bitcoin.core:CMutableTxIn.from_txin', name='thaw_txin', prop=[P, 'C02'])
 def thaw_txin(cls: Const(CMutableTxIn), txin: Obj(OneOf(CTxIn, CMutableTxIn), heap=True,
                                                    prevout=Obj(OneOf(COutPoint, CMutableOutPoint), heap=True))):
     """mutable copy of any input: new CMutableTxIn with a new CMutableOutPoint"""
@@ -243,13 +243,13 @@ def thaw_txin(cls: Const(CMutableTxIn), txin: Obj(OneOf(CTxIn, CMutableTxIn), he
             and result.scriptSig == txin.scriptSig and result.nSequence == txin.nSequence)
 
 
-@contract('bitcoin.core:CTxOut.from_txout', name='freeze_txout', prop=P)
+@contract('bitcoin.core:CTxOut.from_txout', name='freeze_txout', prop=[P, 'C02'])
 def freeze_txout(cls: Const(CTxOut), txout: Obj(CMutableTxOut, heap=True)):
     ensures(typeis(result, CTxOut) and result is not txout
             and result.nValue == txout.nValue and result.scriptPubKey == txout.scriptPubKey)
 
 
-@contract('bitcoin.core:CMutableTxOut.from_txout', name='thaw_txout', prop=P)
+@contract('bitcoin.core:CMutableTxOut.from_txout', name='thaw_txout', prop=[P, 'C02'])
 def thaw_txout(cls: Const(CMutableTxOut), txout: Obj(OneOf(CTxOut, CMutableTxOut), heap=True)):
     ensures(typeis(result, CMutableTxOut) and result is not txout
             and result.nValue == txout.nValue and result.scriptPubKey == txout.scriptPubKey)
@@ -259,7 +259,7 @@ MIN = Obj(CMutableTxIn, heap=True, prevout=Obj(CMutableOutPoint, heap=True))
 MOUT = Obj(CMutableTxOut, heap=True)
 
 
-@contract('bitcoin.core:CTransaction.from_tx', name='freeze_tx_2_1', prop=P)
+@contract('bitcoin.core:CTransaction.from_tx', name='freeze_tx_2_1', prop=[P, 'C02'])
 def freeze_tx_2_1(cls: Const(CTransaction),
                   tx: Obj(CMutableTransaction, heap=True, vin=ListOf(MIN, len=2), vout=ListOf(MOUT, len=1), wit=Obj(CTxWitness))):
     """BOUNDED IN LENGTH (2 inputs, 1 output): the immutable snapshot of a mutable transaction consists of new
@@ -277,7 +277,7 @@ def freeze_tx_2_1(cls: Const(CTransaction),
     ensures(result.nLockTime == tx.nLockTime and result.nVersion == tx.nVersion)
 
 
-@contract('bitcoin.core:CMutableTransaction.from_tx', name='thaw_tx_2_1', prop=P)
+@contract('bitcoin.core:CMutableTransaction.from_tx', name='thaw_tx_2_1', prop=[P, 'C02'])
 def thaw_tx_2_1(cls: Const(CMutableTransaction),
                 tx: Obj(OneOf(CTransaction, CMutableTransaction), heap=True, vin=ListOf(MIN, len=2), vout=ListOf(MOUT, len=1),
                         wit=Obj(CTxWitness))):
@@ -356,3 +356,104 @@ def _gen_history(rng):
 
 
 _replay.GENERATORS['histories'] = _gen_history
+
+
+# ---- bounded: identifiers of DESERIALISED objects are those of their own re-serialisation -----------------------
+# (the deserialisers accept encodings that are not the canonical ones: non-minimal CompactSize counts and lengths, the
+# extended transaction format with only empty witness stacks; an identifier taken from the received bytes instead of
+# the object's serialisation would differ exactly there)
+@contract('bitcoin.core:CTransaction.deserialize', name='deserialized_tx_identity', prop=[P, 'C02'])
+def deserialized_tx_identity(cls: Const(CTransaction), buf: Bytes):
+    """BOUNDED: after deserialising any accepted encoding, GetHash is the double SHA-256 of serialize(), GetTxid that
+    of the witness-stripped serialisation, hash() that of the serialisation, and an equal object built by the
+    constructor reports the same identifiers"""
+    option(bounded=500)
+    ensures(result.GetHash() == hash256(result.serialize())
+            and result.GetTxid() == hash256(CTransaction(result.vin, result.vout, result.nLockTime, result.nVersion).serialize())
+            and hash(result) == hash(result.serialize())
+            and CTransaction(result.vin, result.vout, result.nLockTime, result.nVersion, result.wit).GetHash() == result.GetHash()
+            and CMutableTransaction.from_tx(result).GetHash() == result.GetHash())
+
+
+@contract('bitcoin.core:CTxOut.deserialize', name='deserialized_txout_identity', prop=[P, 'C02'])
+def deserialized_txout_identity(cls: Const(CTxOut), buf: Bytes):
+    """BOUNDED: the same for outputs (non-minimal script length prefix)"""
+    option(bounded=300)
+    ensures(result.GetHash() == hash256(result.serialize()) and hash(result) == hash(result.serialize())
+            and CTxOut(result.nValue, result.scriptPubKey).GetHash() == result.GetHash())
+
+
+@contract('bitcoin.core:CBlock.deserialize', name='deserialized_block_identity', prop=[P, 'C02'])
+def deserialized_block_identity(cls: Const(CBlock), buf: Bytes):
+    """BOUNDED: a block's hash is that of its 80-byte header however its transaction count and transactions were
+    encoded on the wire"""
+    option(bounded=200)
+    ensures(result.GetHash() == hash256(result.serialize()[:80]) and result.GetHash() == result.get_header().GetHash()
+            and len(result.get_header().serialize()) == 80)
+
+
+import struct as _struct
+
+
+def _cs(rng, n, p=0.35):
+    """CompactSize of n, non-minimal with probability p"""
+    forms = []
+    if n < 0xfd:
+        forms.append(bytes([n]))
+    if n <= 0xffff:
+        forms.append(b'\xfd' + _struct.pack('<H', n))
+    if n <= 0xffffffff:
+        forms.append(b'\xfe' + _struct.pack('<I', n))
+    forms.append(b'\xff' + _struct.pack('<Q', n))
+    return forms[0] if rng.random() > p else rng.choice(forms)
+
+
+def _enc_txout(rng, o, p=0.35):
+    return _struct.pack('<q', o.nValue) + _cs(rng, len(o.scriptPubKey), p) + bytes(o.scriptPubKey)
+
+
+def _enc_tx(rng, tx, p=0.35):
+    """an accepted encoding of tx: the extended format is used when tx has witness data or (sometimes) with all
+    stacks empty; counts and lengths are sometimes non-minimal"""
+    ext = not tx.wit.is_null() or rng.random() < 0.3
+    out = _struct.pack('<i', tx.nVersion)
+    if ext:
+        out += b'\x00\x01'
+    out += _cs(rng, len(tx.vin), p)
+    for i in tx.vin:
+        out += i.prevout.hash + _struct.pack('<I', i.prevout.n) + _cs(rng, len(i.scriptSig), p) + bytes(i.scriptSig) \
+            + _struct.pack('<I', i.nSequence)
+    out += _cs(rng, len(tx.vout), p)
+    for o in tx.vout:
+        out += _enc_txout(rng, o, p)
+    if ext:
+        for k in range(len(tx.vin)):
+            stack = tx.wit.vtxinwit[k].scriptWitness.stack if k < len(tx.wit.vtxinwit) else ()
+            out += _cs(rng, len(stack), p)
+            for item in stack:
+                out += _cs(rng, len(item), p) + bytes(item)
+    return out + _struct.pack('<I', tx.nLockTime)
+
+
+def _gen_deser_tx(rng):
+    tx = _mk_tx(rng, witness=rng.random() < 0.4)
+    return {'cls': {'__class__': 'bitcoin.core:CTransaction'}, 'buf': _bytes_desc(_enc_tx(rng, tx))}
+
+
+def _gen_deser_txout(rng):
+    tx = _mk_tx(rng)
+    return {'cls': {'__class__': 'bitcoin.core:CTxOut'}, 'buf': _bytes_desc(_enc_txout(rng, tx.vout[0], 0.6))}
+
+
+def _gen_deser_block(rng):
+    txs = [_mk_tx(rng, coinbase=True)] + [_mk_tx(rng, witness=rng.random() < 0.3) for _ in range(rng.randint(0, 2))]
+    if rng.random() < 0.15:
+        txs = []
+    hdr = CBlockHeader(rng.choice([1, 2, 0x20000000]), bytes(rng.getrandbits(8) for _ in range(32)),
+                       bytes(rng.getrandbits(8) for _ in range(32)), rng.getrandbits(32), rng.getrandbits(32), rng.getrandbits(32))
+    buf = hdr.serialize()[:80] + _cs(rng, len(txs), 0.5) + b''.join(_enc_tx(rng, t) for t in txs)
+    return {'cls': {'__class__': 'bitcoin.core:CBlock'}, 'buf': _bytes_desc(buf)}
+
+
+_replay.GENERATORS.update({'deserialized_tx_identity': _gen_deser_tx, 'deserialized_txout_identity': _gen_deser_txout,
+                           'deserialized_block_identity': _gen_deser_block})
